@@ -164,6 +164,24 @@ def r1(ctx, F):
                 dec_fields = dict(zip(rv['fields'], [strip_payload(term_of(dfl, o)) for o in rv['ops']]))
     if dec_fields is None:
         ctx.missing('C20.R1', 'decode: FrameHeader{..} construction')
+
+    def through_ctor(t):
+        # `Self { flags, ..Self::new(kind, len) }`: a field taken over from what a crate constructor returned is that
+        # constructor's field - one of its parameters (then the argument handed in here) or a constant of its own
+        t0 = strip_payload(t)
+        if t0[0] == 'field' and t0[1][0] == 'call' and F.body(t0[1][1]) is not None:
+            cb_ = F.body(t0[1][1])
+            cfl_ = flow_of(cb_)
+            for bi_ in cfl_.cfg.reachable():
+                for st_ in cb_.blocks[bi_]['stmts']:
+                    rv_ = st_['rv']
+                    if rv_['k'] == 'agg' and rv_.get('adt') == 'protocol::FrameHeader' and t0[2] in rv_.get('fields', []):
+                        s_ = strip_payload(term_of(cfl_, rv_['ops'][rv_['fields'].index(t0[2])]))
+                        if s_[0] == 'param' and 1 <= s_[1] <= len(t0[1][2]):
+                            return strip_payload(t0[1][2][s_[1] - 1])
+                        return s_
+        return t
+    dec_fields = {f_: through_ctor(t_) for f_, t_ in dec_fields.items()}
     dec_table = {}   # (field, j) -> (pos, endian)
 
     def buf_idx(t):
